@@ -281,6 +281,9 @@ def for_with_invariant(it, node, fr, seq, lc, k):
                 it.assign(node.target, x, fr)
             except Exception:
                 pass
+        if getattr(lc, 'exit_snapshot', False):
+            fr.locals[f'__after_loop{k}__'] = it.models_mod._deepcopy(
+                it, V.SObj(object, dict(fr.locals), frozen=True))
         return
 
 
